@@ -64,6 +64,7 @@ def directed_cases(seed: int, tier: str) -> typing.List[dict]:
         ("ext-stem", {"ext": ".inc", "ns_stem": "nsfile", "ns_types": True}),
         ("empty-root", {"root": "emptyroot", "lookups": []}),
         ("verbose", {"verbosity": "-v"}),
+        ("user-support-read-refused", {"support_templates": "override", "support_read_fault": "EACCES"}),
         ("config-file-extension-stem", {"cfg_doc": {"extension": ".gen.h", "namespace_file_stem": "pkg"}, "ns_types": True, "templates": "by_kind"}),
         ("config-file-support-namespace", {"cfg_doc": {"support_namespace": "acme.support"}}),
         ("very-verbose", {"verbosity": "-vv", "ns_types": True}),
@@ -117,6 +118,10 @@ def _gen_opts(r: Rng, ds: dsdlgen.DsdlSet, lang: typing.Optional[str], fixed: ty
             o["templates"] = r.choice(names)
         if r.chance(1, 4) and lang in usertpl.SUPPORT_NAME:
             o["support_templates"] = r.choice(sorted(usertpl.SUPPORT_SETS))
+            if r.chance(1, 4):
+                # the user's support template is there but cannot be read (EACCES / EIO) in every invocation of the case: the run
+                # may fail (then there is nothing to compare), it may not quietly use a template the listing does not name
+                o["support_read_fault"] = r.choice(["EACCES", "EIO"])
         if r.chance(1, 6) and lang in ("c", "cpp"):
             o["ext"] = r.choice([".h", ".hh", "hpp", ".inc"])
         if r.chance(1, 6):
@@ -349,10 +354,13 @@ def run_case(case: dict, ctx: dict) -> dict:
         return o
 
     def env_plan(o: dict) -> dict:
-        """the invocation plan entries that realise lookups given through DSDL_INCLUDE_PATH"""
+        """the invocation plan entries that realise lookups given through DSDL_INCLUDE_PATH (and a refused read)"""
+        plan_extra = {}  # type: typing.Dict[str, typing.Any]
+        if o.get("support_read_fault") and o.get("support_templates"):
+            plan_extra["read_faults"] = {"/%s/%s" % (o["support_templates"], n): o["support_read_fault"] for n in ("serialization.j2", "nunavut_support.j2")}
         if not o.get("lookups_via_env"):
-            return {}
-        return {"env": {"DSDL_INCLUDE_PATH": os.pathsep.join(os.path.join(world.in_dir, x) for x in o.get("lookups", []))}, "env_unset": []}
+            return plan_extra
+        return dict(plan_extra, env={"DSDL_INCLUDE_PATH": os.pathsep.join(os.path.join(world.in_dir, x) for x in o.get("lookups", []))}, env_unset=[])
 
     def without_env_lookups(o: dict) -> dict:
         return dict(o, lookups=[]) if o.get("lookups_via_env") else o
